@@ -231,8 +231,8 @@ def run_shard(prop, arm_name, tier, k, nshards, n, seed, journal=None):
                 pickle.dump(case, fh, 4)
         ev = evaluate(arm, case)
         col.add(arm, case, ev)
-        if any(f.key.startswith("no-result:cpu-time-limit") for f in ev.failures):
-            col.stuck = True
+        if any(f.key.startswith(("no-result:cpu-time-limit", "hang:cpu-time")) for f in ev.failures):
+            col.stuck = True            # every further case of this shard could take as long (a coverage-guided arm would even breed them)
     if arm.enum is not None:
         for case in arm.enum(k, nshards, tier):
             one(case)
@@ -466,6 +466,9 @@ def main(prop, tier, replay_path=None, jobs=None):
     mod = load_check(prop)
     arms = mod.arms(tier)
     scale = float(os.environ.get("VERIF_SCALE", "1") or "1")   # sensitivity screening only; registered commands never set it
+    only = [x for x in os.environ.get("VERIF_ONLY_ARMS", "").split(",") if x]      # sensitivity experiments only, never set by registered commands
+    if only:
+        arms = [a for a in arms if a.name in only]
     if scale != 1:
         for a in arms:
             a.quick = max(20, int(a.quick * scale)) if a.quick > 0 else a.quick
@@ -660,12 +663,12 @@ def main(prop, tier, replay_path=None, jobs=None):
     # required classes
     req = getattr(mod, "REQUIRED_CLASSES", {})
     req = req.get(tier, req.get("quick", ())) if isinstance(req, dict) else req
-    for c in req if scale == 1 else ():
+    for c in req if (scale == 1 and not only) else ():
         if classes.get(c, 0) == 0 and not harness_errors:
             harness_errors.append("required class %r was never generated (generator defect)" % c)
 
     # classes that must be reached at least n times in the quick tier (a generator whose interesting class dwindles is a defect)
-    if tier == "quick" and scale == 1:
+    if tier == "quick" and scale == 1 and not only:
         for c, n in getattr(mod, "MIN_CLASS_COUNTS", {}).items():
             if classes.get(c, 0) < n and not harness_errors:
                 harness_errors.append("class %r was generated %d times, at least %d are required (generator defect)" % (c, classes.get(c, 0), n))
